@@ -119,3 +119,41 @@ Proof.
   rewrite (xeval_lnorm doc bind Hns (surface sp1) doc_root (ctx_of bind) eq_refl).
   rewrite (xeval_lnorm doc bind Hns (surface sp2) doc_root (ctx_of bind) eq_refl). rewrite E. reflexivity.
 Qed.
+
+(** ** the same statements for an arbitrary context, with the context that is left *)
+Lemma parsed_spelled doc (a : xexpr) (w : wtree) e c :
+  wfb a = true -> no_fname_case a = true -> ws_ok w = true -> parse_expr (spell_surface a w) = POk e [] ->
+  query doc e c = xeval doc a doc_root c.
+Proof.
+  intros Hwf Hn Hw Hp. destruct (parse_spell_surface_all a w Hwf Hn Hw) as [e' [Hp' Ha]].
+  rewrite Hp in Hp'. injection Hp' as <-. unfold query. rewrite (eval_abs doc e doc_root c (parse_shaped _ _ _ Hp)), Ha. reflexivity.
+Qed.
+
+Theorem spelling_irrelevant_context_proof : forall doc a sp1 sp2 e1 e2 c,
+  ok_spelling a sp1 -> ok_spelling a sp2 ->
+  no_fname_case (surface sp1) = true -> no_fname_case (surface sp2) = true ->
+  parse_expr (spell a sp1) = POk e1 [] -> parse_expr (spell a sp2) = POk e2 [] ->
+  DocInv doc -> ns_lookup (c_ns c) None = None -> xnons a = true ->
+  forall v c', query doc e1 c = (Ok v, c') <-> query doc e2 c = (Ok v, c').
+Proof.
+  intros doc a sp1 sp2 e1 e2 c (W1 & E1 & S1) (W2 & E2 & S2) N1 N2 P1 P2 Hinv Hns Hx v c'.
+  rewrite (parsed_spelled doc _ _ e1 c W1 N1 S1 P1), (parsed_spelled doc _ _ e2 c W2 N2 S2 P2).
+  assert (X1 : xnons (surface sp1) = true) by (rewrite <- xnons_norm, E1, xnons_norm; exact Hx).
+  assert (X2 : xnons (surface sp2) = true) by (rewrite <- xnons_norm, E2, xnons_norm; exact Hx).
+  pose proof (xeval_norm doc Hinv (c_ns c) Hns (surface sp1) X1 doc_root (good_root doc Hinv) c eq_refl v c') as Q1.
+  pose proof (xeval_norm doc Hinv (c_ns c) Hns (surface sp2) X2 doc_root (good_root doc Hinv) c eq_refl v c') as Q2.
+  unfold xequiv in E1, E2. rewrite E1 in Q1. rewrite E2 in Q2. rewrite Q1, Q2. reflexivity.
+Qed.
+
+Theorem spelling_irrelevant_light_context_proof : forall doc a sp1 sp2 e1 e2 c,
+  ok_spelling a sp1 -> ok_spelling a sp2 ->
+  no_fname_case (surface sp1) = true -> no_fname_case (surface sp2) = true ->
+  parse_expr (spell a sp1) = POk e1 [] -> parse_expr (spell a sp2) = POk e2 [] ->
+  lnorm (surface sp1) = lnorm (surface sp2) -> ns_lookup (c_ns c) None = None ->
+  query doc e1 c = query doc e2 c.
+Proof.
+  intros doc a sp1 sp2 e1 e2 c (W1 & _ & S1) (W2 & _ & S2) N1 N2 P1 P2 E Hns.
+  rewrite (parsed_spelled doc _ _ e1 c W1 N1 S1 P1), (parsed_spelled doc _ _ e2 c W2 N2 S2 P2).
+  rewrite (xeval_lnorm doc (c_ns c) Hns (surface sp1) doc_root c eq_refl).
+  rewrite (xeval_lnorm doc (c_ns c) Hns (surface sp2) doc_root c eq_refl). rewrite E. reflexivity.
+Qed.
